@@ -36,9 +36,14 @@ ASSUMPTIONS = [
 
 
 @st.composite
-def cases(draw, convs=S.ALL_CONVS):
+def cases(draw, convs=S.ALL_CONVS, invalid_cells=False):
     conv = draw(st.sampled_from(list(convs)))
-    spec = {"conv": conv, "geom": draw(S.geometry(conv, max_n=4, max_j=3, max_i=3))}
+    if invalid_cells:
+        # 2-D grids with stored bounds, holes, and self-crossing cells among the later ones
+        conv = draw(st.sampled_from(["cf2d", "shoc_simple"]))
+        spec = {"conv": conv, "geom": draw(S.geometry(conv, max_n=4, bounds=True, twist="always"))}
+    else:
+        spec = {"conv": conv, "geom": draw(S.geometry(conv, max_n=4, max_j=3, max_i=3, twist=True))}
     n_grid = 1 if conv == "ugrid" else 2
     extra = {"tstep": draw(st.integers(1, 3))}
     spec["extra"] = extra
@@ -59,6 +64,7 @@ def cases(draw, convs=S.ALL_CONVS):
         variables.append(var)
     spec["vars"] = variables
     spec["mode"] = draw(st.sampled_from(["raw", "raw", "dask", "file"]))
+    spec.update(draw(S.storage_options(conv)))
     return {
         "spec": spec,
         "given": draw(st.sampled_from(["name", "array", "derived", "none"])),
@@ -77,6 +83,13 @@ def check_case(case, ctx):
     ds, conv = open_case(spec)
     polygons = conv.polygons
     live = [n for n in range(len(polygons)) if polygons[n] is not None]
+    if refmodel.cells_defined_by_statement(spec):
+        # which cells have geometry is the dataset's business (the reference cells: corners
+        # present and the ring not self-crossing), not whatever the polygon array says
+        cells = refmodel.cells(spec)
+        want_live = [n for n, c in enumerate(cells) if c is not None]
+        ctx.check(live == want_live, "C19.one_patch_per_cell",
+                  lambda: f"cells with a polygon: {live}; cells with geometry in the dataset: {want_live}")
     gd = specs.grid_dims(spec)["face"]
     var = spec["vars"][0]
 
@@ -259,5 +272,6 @@ def check_case(case, ctx):
 SUBS = [
     Sub("artists", lambda tier: cases(), check_case, quick=150, thorough=800),
     Sub("artists_meshes", lambda tier: cases(convs=["ugrid"]), check_case, quick=80, thorough=400),
+    Sub("grids_with_invalid_cells", lambda tier: cases(invalid_cells=True), check_case, quick=40, thorough=250),
 ]
 MATCHERS = {}
